@@ -1674,7 +1674,8 @@ class Interp:
         if cname.startswith("std::shared_ptr<") or cname.startswith("std::__shared_ptr<") or cname.startswith("std::__shared_ptr_access<") \
                 or (cname.startswith("std::operator") and "shared_ptr" in cname) \
                 or (cname.startswith("std::operator") and op in ("==", "!=") and len(args) == 2 and
-                    ("shared_ptr<" in _strip(args[0]).get("t", "") or "shared_ptr<" in _strip(args[1]).get("t", ""))):
+                    (_strip(args[0]).get("t", "").replace("const ", "").startswith("std::shared_ptr<")
+                     or _strip(args[1]).get("t", "").replace("const ", "").startswith("std::shared_ptr<"))):
             if op in ("->", "*"):
                 return self.ev(args[0], env)
             if op in ("==", "!="):
